@@ -83,11 +83,15 @@ def m_int(eng, x=0, base=10):
 
 
 def str_to_int(eng, x, base=10):
-    """int(str) for ASCII-digit strings with optional sign; other accepted spellings (whitespace, underscores,
-    non-ASCII digits) are detected and reported as unsupported rather than mis-modelled"""
+    """int(str, base) for ASCII digit/letter strings with optional sign; other accepted spellings (whitespace,
+    underscores, non-ASCII digits, 0x prefixes) are detected and reported as unsupported rather than mis-modelled"""
+    if is_sym(base):
+        base = eng.concretize_int(base, "int() base")
+    if not 2 <= base <= 36:
+        raise Unsupported("int() base %r" % (base,))
     cs = list(x.cs)
     if not cs:
-        raise ValueError("invalid literal for int() with base 10: ''")
+        raise ValueError("invalid literal for int() with base %d: ''" % base)
     neg = False
     if eng.truth(eng.cmp("Eq", cs[0], 45)):
         neg = True
@@ -98,15 +102,26 @@ def str_to_int(eng, x, base=10):
         raise ValueError("invalid literal for int()")
     t = 0
     for c in cs:
-        isd = eng.and_(eng.cmp("GtE", c, 48), eng.cmp("LtE", c, 57))
+        if base <= 10:
+            isd = eng.and_(eng.cmp("GtE", c, 48), eng.cmp("LtE", c, 47 + base))
+            dv = eng.op("Sub", c, 48)
+        else:
+            nl = base - 10
+            zc = zint(c)
+            isd = mkbool(z3.Or(z3.And(zc >= 48, zc <= 57), z3.And(zc >= 65, zc < 65 + nl), z3.And(zc >= 97, zc < 97 + nl)))
+            dv = mkint(z3.If(zc <= 57, zc - 48, z3.If(zc <= 90, zc - 55, zc - 87)))
+            if isinstance(dv, SymInt):
+                dv = eng.define_var("dv", dv.t, -48, 0x10FFFF)
         if not eng.truth(isd):
             # anything python's int() might still accept -> outside the model
             other_ok = z3.Or(zint(c) == 95, zint(c) == 32, z3.And(zint(c) >= 9, zint(c) <= 13), zint(c) > 127,
                              z3.And(zint(c) >= 28, zint(c) <= 31))
+            if base in (2, 8, 16):
+                other_ok = z3.Or(other_ok, zint(c) == 120, zint(c) == 88, zint(c) == 111, zint(c) == 79, zint(c) == 98, zint(c) == 66)
             if eng.decide(other_ok):
-                raise Unsupported("int() of string with underscore/space/non-ASCII character")
-            raise ValueError("invalid literal for int() with base 10")
-        t = eng.op("Add", eng.op("Mult", t, 10), eng.op("Sub", c, 48))
+                raise Unsupported("int() of string with underscore/space/prefix/non-ASCII character")
+            raise ValueError("invalid literal for int() with base %d" % base)
+        t = eng.op("Add", eng.op("Mult", t, base), dv)
     return eng.neg(t) if neg else t
 
 
@@ -237,6 +252,8 @@ def m_abs(eng, x):
     if isinstance(x, SymFloat):
         if x.ival is not None:
             return SymFloat(ival=m_abs(eng, x.ival))
+        if x.t is None:
+            return eng.neg(x) if eng.truth(eng.cmp("Lt", x, 0)) else x
         return SymFloat(z3.fpAbs(eng.to_fp(x)))
     return abs(x)
 
@@ -332,6 +349,8 @@ def m_round(eng, x, nd=None):
     if isinstance(x, SymFloat):
         if x.ival is not None:
             return x.ival if nd is None else x
+        if nd is None and x.t is None:
+            return eng.real_to_int(eng.real_of(x), "round")
         if nd is None:
             t = z3.fpRoundToIntegral(z3.RNE(), eng.to_fp(x))
             return eng.float_to_int(SymFloat(t))
@@ -363,6 +382,12 @@ def m_hex(eng, x):
     return hex(x)
 
 
+def m_oct(eng, x):
+    if isinstance(x, (SymInt, SymBV)):
+        return digits_in_base(eng, x, 8, prefix="0o")
+    return oct(x)
+
+
 def digits_in_base(eng, x, base, prefix="", max_digits=130):
     neg = eng.truth(eng.cmp("Lt", x, 0))
     a = eng.neg(x) if neg else x
@@ -379,6 +404,8 @@ def digits_in_base(eng, x, base, prefix="", max_digits=130):
             rest = eng.op("FloorDiv", rest, base)
         if base <= 10:
             out.append(eng.op("Add", d, 48))
+        elif isinstance(d, SymInt):
+            out.append(eng.define_var("hx", z3.If(d.t < 10, d.t + 48, d.t + 87), 48, 87 + base - 1))
         else:
             if is_sym(d):
                 d = eng.concretize_int(d, "digit")
@@ -603,6 +630,19 @@ def m_pack(eng, fmt, *vals):
                         bv = z3.BitVec("_f64_%d" % eng.fresh_id(), 64)
                         eng.fp_pack_cache[key] = bv
                         eng.fp_origin[bv.get_id()] = fv_sym
+                elif fv_sym.t is None:
+                    # real-enclosure / quotient / decimal-defined double: its 8 bytes are an uninterpreted word
+                    # (same value -> same word); unpack() of exactly these bytes gives the value back
+                    if fv_sym.quot is not None:
+                        key = ("quot", zint(fv_sym.quot[0]).get_id(), fv_sym.quot[1])
+                    else:
+                        key = ("real", eng.real_of(fv_sym).get_id())
+                    bv = eng.fp_pack_cache.get(key)
+                    if bv is None:
+                        bv = z3.BitVec("_f64_%d" % eng.fresh_id(), 64)
+                        eng.fp_pack_cache[key] = bv
+                        eng.fp_origin[bv.get_id()] = fv_sym
+                        eng.__dict__.setdefault("keepalive", []).append((bv, fv_sym))
                 else:
                     fv = eng.to_fp(fv_sym)
                     key = ("fp", fv.get_id())
@@ -673,6 +713,63 @@ def m_trunc(eng, x):
     return math.trunc(x)
 
 
+LOG2_TABLE = {}
+
+
+def _log2_thresholds(k):
+    """for the binade [2^k, 2^(k+1)): (A, B, C) with  math.log2(n) == k  iff n <= A;  math.log2(n) < k + 0.5  iff n < B;
+    math.log2(n) >= k + 1  iff n >= C  - found by bisection on the running interpreter's math.log2 (assumed monotone
+    on integers, which is checked on every probe pair the bisection visits)"""
+    hit = LOG2_TABLE.get(k)
+    if hit is not None:
+        return hit
+    lo, hi = 2 ** k, 2 ** (k + 1) - 1
+
+    def first(pred):
+        # smallest n in [lo, hi] with pred(n) (pred monotone: False...True), hi + 1 if none
+        a, b = lo, hi + 1
+        while a < b:
+            m = (a + b) // 2
+            if pred(m):
+                b = m
+            else:
+                a = m + 1
+        return a
+    A = first(lambda n: math.log2(n) > k) - 1
+    B = first(lambda n: math.log2(n) >= k + 0.5)
+    C = first(lambda n: math.log2(n) >= k + 1)
+    LOG2_TABLE[k] = (A, B, C)
+    return A, B, C
+
+
+def m_log2(eng, x):
+    """math.log2 of a positive symbolic int below 2^53: the path forks on the binade; within it the result is a double y
+    with k <= y <= k + 1 whose position relative to k, k + 1/2 and k + 1 is fixed by integer thresholds taken from the
+    running interpreter (so ceil / floor / round / int of it are exact); nothing else about y is assumed"""
+    if isinstance(x, SymFloat) and x.ival is not None:
+        x = x.ival
+    if not isinstance(x, (SymInt, SymBV)):
+        if deep_sym(x):
+            raise Unsupported("log2 on symbolic non-integer value is not encodable")
+        return math.log2(x)
+    if isinstance(x, SymBV):
+        x = mkint(zint(x))
+    if eng.truth(eng.cmp("LtE", x, 0)):
+        raise ValueError("math domain error")
+    k = 0
+    while eng.truth(eng.cmp("GtE", x, 2 ** (k + 1))):
+        k += 1
+        if k > 52:
+            raise Unsupported("log2 of an int that may exceed 2^53")
+    A, B, C = _log2_thresholds(k)
+    y = z3.Real("_log2_%d" % eng.fresh_id())
+    eng.real_mode = True
+    half = z3.Q(2 * k + 1, 2)
+    eng.add_fact(z3.And(y >= k, y <= k + 1, (y == k) == (x.t <= A), (y < half) == (x.t < B), (y == k + 1) == (x.t >= C)))
+    eng.set_bounds(y, k, k + 1)
+    return SymFloat(real=y)
+
+
 def m_unmodelled(name):
     def f(eng, *a, **k):
         if any(deep_sym(x) for x in a):
@@ -708,6 +805,8 @@ def a_nondet_int(eng, tag, lo, hi):
         eng.add_fact(t >= lo)
     if hi is not None:
         eng.add_fact(t <= hi)
+    if isinstance(lo, (int, type(None))) and isinstance(hi, (int, type(None))):
+        eng.set_bounds(t, lo, hi)
     v = SymInt(t)
     eng.register_input(name, "nd", v)
     return v
@@ -813,7 +912,60 @@ def sym_format(eng, x, spec):
                 h = len(pad) // 2
                 return mkstr(pad[:h] + cs + pad[h:])
             return mkstr(cs + pad)
+    if isinstance(x, SymFloat) and x.dec is not None:
+        m = _re.fullmatch(r"\.(\d+)([eE])", spec)
+        if m:
+            return fmt_exp(eng, x, int(m.group(1)), m.group(2))
     raise Unsupported(f"format spec {spec!r} on symbolic {type(x).__name__}")
+
+
+def fmt_exp(eng, x, places, letter):
+    """format(x, '.<places>E') of a decimal-defined double (<= 15-17 significant digits d1..dn at exponent e10): the
+    correctly rounded decimal of the binary value (documented behaviour of float.__format__). The double differs from
+    its defining decimal by far less than half a unit of any place shown, so the result is the decimal rounded to
+    places+1 digits - except on an exact decimal tie, where the direction depends on the binary value: both outcomes
+    are explored (nondeterministic choice)."""
+    neg, digits, e10 = x.dec
+    n = len(digits)
+    keep = places + 1
+    exp = e10
+    if n <= keep:
+        ds = list(digits) + [0] * (keep - n)
+    else:
+        head, tail = list(digits[:keep]), list(digits[keep:])
+        t0 = tail[0]
+        if len(tail) == 1:
+            # the last digit of a shortest representation is non-zero: a tie iff it is 5
+            if eng.truth(eng.cmp("Eq", t0, 5)):
+                up = eng.truth(nondet_bool_sym(eng, "format-tie#%d" % eng.fresh_id()))
+            else:
+                up = eng.truth(eng.cmp("Gt", t0, 5))
+        else:
+            up = eng.truth(eng.cmp("GtE", t0, 5))          # 5 followed by a non-zero digit further on: above the tie
+        if not up:
+            ds = head
+        else:
+            M = 0
+            for d in head:
+                M = eng.op("Add", eng.op("Mult", M, 10), d)
+            M = eng.op("Add", M, 1)
+            if eng.truth(eng.cmp("Eq", M, 10 ** keep)):
+                ds = [1] + [0] * (keep - 1)
+                exp = e10 + 1
+            else:
+                s10 = eng.int_to_str(M)
+                ds = [eng.op("Sub", c, 48) for c in chars(s10)]
+                if len(ds) != keep:
+                    raise Unsupported("format: unexpected digit count")
+    cs = [45] if eng.truth(neg) else []
+    cs.append(eng.op("Add", ds[0], 48))
+    if keep > 1:
+        cs.append(46)
+        cs.extend(eng.op("Add", d, 48) for d in ds[1:])
+    cs.append(ord(letter))
+    cs.append(45 if exp < 0 else 43)
+    cs.extend(ord(c) for c in "%02d" % abs(exp))
+    return mkstr(cs)
 
 
 def m_decimal(eng, x="0", *a):
@@ -840,8 +992,9 @@ class SymDecimal:
         self.neg, self.digits, self.exponent = neg, digits, exponent
 
     def as_tuple(self):
+        import decimal
         sign = self.neg if not isinstance(self.neg, bool) else int(self.neg)
-        return (sign, tuple(self.digits), self.exponent)
+        return decimal.DecimalTuple(sign, tuple(self.digits), self.exponent)
 
 
 def m_sigfig_round(eng, x, *a, **kw):
@@ -878,7 +1031,7 @@ def install(eng):
         repr: m_repr, chr: m_chr, ord: m_ord, range: m_range, reversed: m_reversed, enumerate: m_enumerate,
         zip: m_zip, bytearray: m_bytearray, bytes: m_bytes, abs: m_abs, max: m_max, min: m_min, sum: m_sum,
         any: m_any, all: m_all, sorted: m_sorted, round: m_round, divmod: m_divmod, pow: m_pow, bin: m_bin,
-        hex: m_hex, getattr: m_getattr, setattr: m_setattr, hasattr: m_hasattr, tuple: m_tuple, list: m_list,
+        hex: m_hex, oct: m_oct, getattr: m_getattr, setattr: m_setattr, hasattr: m_hasattr, tuple: m_tuple, list: m_list,
         dict: m_dict, set: m_set, iter: m_iter, next: m_next, id: m_id, hash: m_hash, print: m_print,
         format: m_format, map: m_map, filter: m_filter, callable: m_callable,
         struct.unpack: m_unpack, struct.pack: m_pack,
@@ -887,7 +1040,8 @@ def install(eng):
         api.nondet_bv: a_nondet_bv, api.nondet_bytes: a_nondet_bytes, api.nondet_str: a_nondet_str, api.opaque_bytes: a_opaque_bytes, api.cover: a_cover,
         api.is_symbolic: a_is_symbolic, api.concretize: a_concretize,
     })
-    for name in ("log", "log10", "log2", "pow", "sqrt", "exp", "isnan", "isinf", "isfinite", "modf", "copysign", "fabs"):
+    M[math.log2] = m_log2
+    for name in ("log", "log10", "pow", "sqrt", "exp", "isnan", "isinf", "isfinite", "modf", "copysign", "fabs"):
         M[getattr(math, name)] = m_unmodelled(name)
     from . import symre, dtmodels
     symre.install(eng)
